@@ -314,6 +314,32 @@ class StereoCondensedReactionGraph(StereoMolGraph, CondensedReactionGraph):
 
         return relabeled_scrg
 
+    def subgraph(self, atoms: Iterable[AtomId]) -> Self:
+        """Returns a subgraph of the graph with the given atoms, the stereo
+        information and the stereo changes all of whose atoms are kept.
+
+        :param atoms: Atoms to be used for the subgraph
+        :return: Subgraph
+        """
+        atoms = tuple(atoms)  # may be a one-shot iterator
+        new_graph = super().subgraph(atoms)
+        atoms = set(atoms)
+
+        for old, new in (
+            (self._atom_stereo_change, new_graph._atom_stereo_change),
+            (self._bond_stereo_change, new_graph._bond_stereo_change),
+        ):
+            for key, change_dict in old.items():
+                stereos = [s for s in change_dict.values() if s is not None]
+                if stereos and all(
+                    atom in atoms
+                    for stereo in stereos
+                    for atom in stereo.atoms
+                    if atom is not None
+                ):
+                    new[key] = deepcopy(change_dict)
+        return new_graph
+
     def reactant(self, keep_attributes: bool = True) -> StereoMolGraph:
         """
         Returns the reactant of the reaction
@@ -487,6 +513,7 @@ class StereoCondensedReactionGraph(StereoMolGraph, CondensedReactionGraph):
         :param mol_graphs: list of MolGraph objects
         :return: Returns Combined MolGraph
         """
+        mol_graphs = tuple(mol_graphs)  # may be a one-shot iterator
         graph = cls(super().compose(mol_graphs))
         for mol_graph in mol_graphs:
             graph._atom_stereo_change.update(
